@@ -386,6 +386,19 @@ def d19_schedule(U=10):
             ("run", 60), ("adv", U - 2), ("try_other", 1), ("run", 8), ("adv", 0)]
 
 
+def stall_schedule(rng, U):
+    """directed: the leader Y holds L1, prolongs, then is silent for more than U; follower Z's tryAcquire is
+    stamped during the silence but Z's node is frozen, so it is committed only after Y has resumed prolonging."""
+    step = max(1, U // 2 - 1)
+    ev = [("run", 40), ("roles_leader_holds",), ("try_role", "Y", 1), ("run", 6)]
+    for _ in range(rng.randrange(0, 3)):
+        ev += [("adv", step), ("tick_role", "Y"), ("run", 4)]
+    ev += [("adv", U + rng.choice((1, 2, U))), ("freeze_role", "Z"), ("try_role", "Z", 1), ("adv", rng.choice((0, 1))),
+           ("tick_role", "Y"), ("run", 6), ("thaw_role", "Z"), ("run", 40), ("tick_role", "Y"), ("run", 6),
+           ("expect_granted", "Z", 1), ("expect_not_holds", "Y", 1)]
+    return ev
+
+
 def snapshot_schedule(rng, U):
     """directed: Y (the leader) holds L1 and prolongs every < U/2; variant `install`: follower Z is frozen, the
     leader compacts, Z thaws and is caught up by the leader's snapshot; variant `restart`: Z compacts (writes
@@ -503,6 +516,33 @@ def _execute(repo, U, seed, evs, use_batch, nlk, dumpdir):
                 elif k == "try_role":
                     cl.try_acquire(n, ev[2])
                     cl.hit("try")
+            elif k == "expect_granted" and getattr(cl, "roles", None):
+                n = cl.roles[ev[1]]
+                z = NAMES.index(n) + 1
+                got = [a.get("ans") for a in cl.answers if a["client"] == n and a["l"] == ev[2] and "ans" in a
+                       and 2 * (a["at"] - a["att"]) <= U]          # late answers are turned into False by the wrapper
+                if not got or not lc.silent_before([c for c, _ in common_sequence(cl)], U, z, ev[2]):
+                    cl.hit("expect.skipped")
+                else:
+                    cl.hit("expect.competitor-granted-after-expiry")
+                    if not any(r is True for r in got):
+                        cl.viols.append({"signature": "batteries.ReplLockManager:expired-lock-refused-to-competitor",
+                                         "what": "cluster: client %s tried L%d more than U=%d after the holder's last stamp and was answered %s; "
+                                                 "common sequence %s" % (n, ev[2], U, got, [lc.cmd_str(c) for c, _ in common_sequence(cl)])})
+            elif k == "expect_not_holds" and getattr(cl, "roles", None):
+                n = cl.roles[ev[1]]
+                y = NAMES.index(n) + 1
+                common = common_sequence(cl)
+                tries = [a for a in cl.answers if a["client"] == n and a["l"] == ev[2]]
+                if len(tries) != 1 or cl.applied[n] != common or cl.marks[n] or not lc.stalled([c for c, _ in common], U, y, ev[2]):
+                    cl.hit("expect.skipped")
+                else:
+                    cl.hit("expect.stalled-holder-does-not-hold")
+                    if cl.mgrs[n].isAcquired(lc.lock_name(ev[2])):
+                        cl.viols.append({"signature": "batteries.ReplLockManager:holder-regained-expired-lock-without-tryAcquire",
+                                         "what": "cluster: client %s was silent for more than U=%d, did not call tryAcquire again, and at lock-clock %d "
+                                                 "its isAcquired(L%d) is True; table %s; common sequence %s"
+                                                 % (n, U, cl.clock.now, ev[2], lc.table_of(cl.mgrs[n]._consumer()), [lc.cmd_str(c) for c, _ in common])})
             elif k in ("expect_holds", "expect_refused") and getattr(cl, "roles", None) and not in_time(cl, U):
                 cl.hit("expect.skipped-holder-did-not-prolong-in-time")
             elif k == "expect_holds" and getattr(cl, "roles", None):
@@ -713,6 +753,25 @@ def run(ctx):
             if sig not in [x["signature"] for x in viols] and len(viols) < 4:
                 viols.append({"signature": sig, "what": "[directed stale schedule] " + v["what"],
                               "replay": {"kind": "cluster-stale", "U": U, "seed": seed}})
+    # directed `stall` schedules
+    for i in range(ctx.scale(30, 500)):
+        U = rng.choice((4, 8, 10))
+        seed = rng.randrange(10 ** 6)
+        out = execute(ctx.repo, U, seed, stall_schedule(_random.Random(seed), U))
+        cases += 1
+        seen.add("stall-%d-%d" % (U, seed))
+        for k, v in out["cov"].items():
+            cov["stall." + k] = cov.get("stall." + k, 0) + v
+        d = prefix_check(U, out)
+        if d and len(disagreements) < 3:
+            disagreements.append(d)
+        mb.add(U, out, {"schedule": "stall", "seed": seed})
+        if out["viols"]:
+            v = out["viols"][0]
+            sig = v["signature"] or SIG_MUTEX
+            if sig not in [x["signature"] for x in viols] and len(viols) < 5:
+                viols.append({"signature": sig, "what": "[directed stall schedule] " + v["what"],
+                              "replay": {"kind": "cluster-stall", "U": U, "seed": seed}})
     # directed `snapshot` schedules (real dump files, forced compaction, install on a lagging node, restart)
     for i in range(ctx.scale(30, 500)):
         U = rng.choice((4, 8, 10))
@@ -769,7 +828,9 @@ def run(ctx):
             "stale.pro.stale-while-fresh-lock-of-another-client", "stale.expect.holder-still-holds",
             "stale.expect.competitor-refused", "snap.compact", "snap.restart",
             "snap.snapshot.install.while-another-clients-lock-is-held", "snap.expect.competitor-refused",
-            "snap.expect.holder-still-holds", "model.snapshot-positions-matched"]
+            "snap.expect.holder-still-holds", "model.snapshot-positions-matched",
+            "stall.expect.competitor-granted-after-expiry", "stall.expect.stalled-holder-does-not-hold",
+            "stall.pro.expires-lock.of-the-prolonging-holder"]
     missing = [k for k in need if not cov.get(k)]
     if missing and not viols:
         res["inconclusive"] = "coverage floor missed: " + ",".join(missing)
@@ -789,8 +850,10 @@ def search(ctx, unproved):
     for i in range(ctx.scale(300, 3000)):
         U = rng.choice((4, 8, 10, 12))
         seed = rng.randrange(10 ** 6)
-        if i % 2:
+        if i % 3 == 1:
             out, kind, dflt = execute(ctx.repo, U, seed, stale_schedule(_random.Random(seed), U)), "stale", SIG_MUTEX_STALE
+        elif i % 3 == 2:
+            out, kind, dflt = execute(ctx.repo, U, seed, stall_schedule(_random.Random(seed), U)), "stall", SIG_MUTEX
         else:
             out = execute(ctx.repo, U, seed, snapshot_schedule(_random.Random(seed), U), dumps=True)
             kind, dflt = "snapshot", SIG_MUTEX_SNAPSHOT
@@ -811,6 +874,8 @@ def replay(ctx, violation):
         out = execute(ctx.repo, rp["U"], rp["seed"], d19_schedule(rp["U"]), use_batch=False)
     elif rp["kind"] == "cluster-snapshot":
         out = execute(ctx.repo, rp["U"], rp["seed"], snapshot_schedule(_random.Random(rp["seed"]), rp["U"]), dumps=True)
+    elif rp["kind"] == "cluster-stall":
+        out = execute(ctx.repo, rp["U"], rp["seed"], stall_schedule(_random.Random(rp["seed"]), rp["U"]))
     elif rp["kind"] == "cluster-stale":
         out = execute(ctx.repo, rp["U"], rp["seed"], stale_schedule(_random.Random(rp["seed"]), rp["U"]))
     else:
